@@ -448,6 +448,39 @@ pub fn generate(w: &mut dyn Write, seed: u64, thorough: bool) {
             }
         }
     }
+    // well-authenticated response heads whose decrypted content is malformed (empty, short, wrong authentication byte,
+    // a length field that promises more than follows): the client must refuse or wait, never crash, never release
+    {
+        use octo_squirrel::protocol::vmess::aead::kdf;
+        use sha2::Digest;
+        let seal = |key: &[u8], iv: &[u8], pt: &[u8]| crate::prims::aead("aes128gcm", true, key, &iv[..12], &[], pt).unwrap();
+        for ci in 0..(if thorough { 12 } else { 4 }) {
+            let sess = rng.bytes(33);
+            let (riv, rkey, rh) = (&sess[0..16], &sess[16..32], sess[32]);
+            let resp_key = sha2::Sha256::digest(rkey)[..16].to_vec();
+            let resp_iv = sha2::Sha256::digest(riv)[..16].to_vec();
+            let len_key = kdf::kdf16(&resp_key, vec![kdf::SALT_AEAD_RESP_HEADER_LEN_KEY]);
+            let len_iv = kdf::kdf(&resp_iv, vec![kdf::SALT_AEAD_RESP_HEADER_LEN_IV]);
+            let hdr_key = kdf::kdf16(&resp_key, vec![kdf::SALT_AEAD_RESP_HEADER_PAYLOAD_KEY]);
+            let hdr_iv = kdf::kdf(&resp_iv, vec![kdf::SALT_AEAD_RESP_HEADER_PAYLOAD_IV]);
+            let heads: Vec<Vec<u8>> = vec![vec![], vec![rh], vec![rh, 0], vec![rh, 0, 0], vec![rh, 0, 0, 0], vec![rh ^ 1, 0, 0, 0], vec![rh, 0, 1, 4, 1, 2, 3, 4],
+                                           vec![rh, 0, 1, 200, 1, 2], rng.bytes(ci + 1)];
+            for h in &heads {
+                for claimed in [h.len(), h.len() + 1, 0usize, 65535] {
+                    let mut wire = seal(&len_key, &len_iv, &(claimed as u16).to_be_bytes());
+                    wire.extend(seal(&hdr_key, &hdr_iv, h));
+                    wire.extend(rng.bytes(ci * 7 % 40));
+                    let opt = masks[ci % masks.len()];
+                    let o = format!("eaa;D{}", hex(&wire));
+                    crate::emit_case(w, &["vmcli".to_string(), uuids[0].clone(), opt.to_string(), "3".into(), "1".into(), addrs[0].clone(), hex(&sess), now.to_string(), o.clone()], exec);
+                    // byte by byte
+                    let segs: Vec<Vec<u8>> = wire.iter().map(|b| vec![*b]).collect();
+                    let o = format!("eaa;{}", ops("D", &segs));
+                    crate::emit_case(w, &["vmcli".to_string(), uuids[0].clone(), opt.to_string(), "3".into(), "1".into(), addrs[0].clone(), hex(&sess), now.to_string(), o], exec);
+                }
+            }
+        }
+    }
     // random bytes to server and client
     for l in (0..120).step_by(if thorough { 1 } else { 3 }) {
         crate::emit_case(w, &["vmsrv".to_string(), now.to_string(), uuids[0].clone(), format!("D{}", hex(&rng.bytes(l))), "@n".to_string()], exec);
